@@ -35,6 +35,7 @@ type Tape struct {
 	Count   int    `json:"count"`
 	Sample  bool   `json:"sample,omitempty"` // draw Count deliveries at random from the mode's space instead of a contiguous range
 	Arg     string `json:"arg,omitempty"`
+	Skip    int    `json:"skip,omitempty"` // deliveries at the start of the batch that are not delivered again (resume after a crash)
 }
 
 type eng struct{}
@@ -112,7 +113,7 @@ func spaceOf(p *point, item []byte, mode string) int {
 	case "field":
 		n := len(fieldSites(p.kind, item)) * len(fieldVals)
 		if p.kind != "der" {
-			n = len(item) * 3 // 4-byte count set to 0, 1, max
+			n = len(item) * 6 // 32-bit field set to 0, 1, max; 64-bit field set to -1, -8, 2^63
 		}
 		return n
 	}
@@ -148,9 +149,17 @@ func damage(p *point, item []byte, mode string, d int) (out []byte, desc string,
 			out[sites[si]] = fieldVals[vi]
 			return out, fmt.Sprintf("length octet at %d -> %#02x", sites[si], fieldVals[vi]), true
 		}
-		pos, k := d/3, d%3
+		pos, k := d/6, d%6
 		if pos >= len(item) {
 			return nil, "", false
+		}
+		if k >= 3 {
+			// 64-bit little-endian field (PAC offsets, NDR sizes): -1, -8 (wraps when a size is added), 2^63
+			v := [][8]byte{{0xff, 0xff, 0xff, 0xff, 0xff, 0xff, 0xff, 0xff}, {0xf8, 0xff, 0xff, 0xff, 0xff, 0xff, 0xff, 0xff}, {0, 0, 0, 0, 0, 0, 0, 0x80}}[k-3]
+			for i := 0; i < 8 && pos+i < len(out); i++ {
+				out[pos+i] = v[i]
+			}
+			return out, fmt.Sprintf("64-bit field at %d -> %s", pos, []string{"-1", "-8", "2^63"}[k-3]), true
 		}
 		for i := 0; i < 4 && pos+i < len(out); i++ {
 			switch k {
@@ -182,7 +191,10 @@ var markF *os.File
 
 // mark records the delivery in progress in the file the orchestrator named, so that a death of
 // this process (fatal runtime error) can be attributed to it.
-func mark(point, what string, tape []byte) {
+// batchPos is the position of the delivery in progress within the tape's batch (-1: not in a batch).
+var batchPos = -1
+
+func mark(point, what string, tape, resume []byte) {
 	if markF == nil {
 		p := os.Getenv("VERIF_MARK_FILE")
 		if p == "" {
@@ -194,10 +206,14 @@ func mark(point, what string, tape []byte) {
 		}
 		markF = f
 	}
-	b := core.MustJSON(map[string]interface{}{"engine": "c04", "point": point, "what": what, "tape": json.RawMessage(tape)})
-	pad := make([]byte, 0, 1024)
+	m := map[string]interface{}{"engine": "c04", "point": point, "what": what, "tape": json.RawMessage(tape)}
+	if resume != nil {
+		m["resume"] = json.RawMessage(resume)
+	}
+	b := core.MustJSON(m)
+	pad := make([]byte, 0, 2048)
 	pad = append(pad, b...)
-	for len(pad) < 1024 {
+	for len(pad) < 2048 {
 		pad = append(pad, ' ')
 	}
 	markF.WriteAt(pad, 0)
@@ -228,11 +244,20 @@ func startWatchdog() {
 			}
 			buf := make([]byte, 1<<20)
 			n := runtime.Stack(buf, true)
-			frame := engine.TopFrame(string(buf[:n]), "github.com/jcmturner/")
+			// the goroutine that runs the delivery; its innermost frame inside gokrb5 itself names the
+			// loop (frames of dependencies above it change from sample to sample)
+			frame, via := "?", ""
+			for _, g := range strings.Split(string(buf[:n]), "\n\n") {
+				if strings.Contains(g, "engines/c04.deliver") {
+					frame = engine.TopFrame(g, "github.com/jcmturner/gokrb5/v8/")
+					via = engine.TopFrame(g, "github.com/jcmturner/")
+				}
+			}
+			frame = "gokrb5/v8/" + frame
 			d, _ := curDelivery.Load().(string)
 			r := core.Result{Engine: "c04", Verdict: "violation", Evals: 1, Class: "hang", Nontrivial: true,
 				Violations: []core.Violation{{Signature: "hang|" + strings.SplitN(d, "|", 2)[0] + "|" + frame,
-					Detail: core.MustJSON(map[string]string{"delivery": d, "wall_clock_limit": "30s", "frame": frame})}}}
+					Detail: core.MustJSON(map[string]string{"delivery": d, "wall_clock_limit": "30s", "frame": frame, "innermost_frame": via})}}}
 			if t, ok := curTape.Load().([]byte); ok {
 				r.Tape = t
 			}
@@ -286,7 +311,13 @@ func deliver(res *core.Result, tp *Tape, pname string, item int, d int, desc str
 	}
 	repro := core.MustJSON(rt)
 	curTape.Store([]byte(repro))
-	mark(pname, desc, repro)
+	var resume []byte
+	if batchPos >= 0 {
+		rs := *tp
+		rs.Skip = batchPos + 1
+		resume = core.MustJSON(rs)
+	}
+	mark(pname, desc, repro, resume)
 	curSeq.Add(1)
 	inDelivery.Store(true)
 	a0 := allocated()
@@ -321,7 +352,7 @@ func run(tapeJSON json.RawMessage, res *core.Result) {
 		res.Verdict, res.Harness = "invalid", err.Error()
 		return
 	}
-	if tp.Count < 0 || tp.Count > 3*chunk || tp.From < 0 {
+	if tp.Count < 0 || tp.Count > 4*chunk || tp.From < 0 {
 		res.Verdict, res.Harness = "invalid", "range"
 		return
 	}
@@ -347,7 +378,9 @@ func run(tapeJSON json.RawMessage, res *core.Result) {
 	}
 	item := p.items[tp.Item]
 	// the undamaged item first: establishes that the corpus is accepted without incident
-	deliver(res, &tp, p.name, tp.Item, -1, "undamaged", item, p.consume)
+	if tp.Skip == 0 {
+		deliver(res, &tp, p.name, tp.Item, -1, "undamaged", item, p.consume)
+	}
 	space := spaceOf(p, item, tp.Mode)
 	rng := core.NewRng(tp.RunSeed).Derive("c04")
 	for k := 0; k < tp.Count; k++ {
@@ -355,11 +388,16 @@ func run(tapeJSON json.RawMessage, res *core.Result) {
 		if tp.Sample {
 			d = rng.Intn(space)
 		}
+		if k < tp.Skip {
+			continue
+		}
 		b, desc, ok := damage(p, item, tp.Mode, d)
 		if !ok {
 			break
 		}
+		batchPos = k
 		deliver(res, &tp, p.name, tp.Item, d, desc, b, p.consume)
+		batchPos = -1
 		res.Faults[tp.Mode]++
 	}
 	if res.Evals == 0 {
